@@ -16,7 +16,7 @@ from mc import common
 LEVEL = "exploration"
 RTOL = 1e-10
 
-SRC = ["pol2", "pol3", "pol3b", "pol5", "meshT", "meshC", "meshC2", "meshC3", "meshC4", "tet", "cub", "seg", "circ", "cyl", "cusA", "cusB"]
+SRC = ["pol2", "pol3", "pol3b", "pol5", "meshT", "meshC", "meshC2", "meshC3", "meshC4", "tet", "cub", "seg", "ring", "circ", "cyl", "cyl2", "cusA", "cusB"]
 OBS = ["p1", "p2", "s2", "pin", "srot"]
 FIELDS = ["B", "H", "J"]
 
@@ -83,6 +83,10 @@ def mk(kind, plen=None, at=None):
         return magpy.magnet.Cuboid(dimension=(1.2, 0.8, 1.0), polarization=pol, **kw)
     if kind == "seg":
         return magpy.magnet.CylinderSegment(dimension=(0.3, 0.9, 1.1, -30, 200), polarization=pol, **kw)
+    if kind == "ring":  # full hollow ring: evaluated by the two-cylinder shortcut, grouped with partial segments of the call
+        return magpy.magnet.CylinderSegment(dimension=(0.35, 0.8, 1.3, 0, 360), polarization=(-0.4, 0.3, 0.5), **kw)
+    if kind == "cyl2":
+        return magpy.magnet.Cylinder(dimension=(0.7, 1.6), polarization=(0.6, 0.1, -0.3), **kw)
     if kind == "circ":
         return magpy.current.Circle(diameter=1.3, current=2.5, **kw)
     if kind == "cyl":
@@ -213,6 +217,10 @@ def batch_rows(kind):
         r0, z0 = 0.55, 0.45
         return [(0.2, 0.1, 0.1), (r0, 0, 0.9), (0, 0, 1.3), (0.05 * r0 * 0.98, 0, 0.7), (0.05 * r0 * 1.02, 0, -0.7),
                 (1.4, -0.6, 0.2), (0, r0, -1.1), (30.0, 10, 5)]
+    if kind == "ring":  # full hollow ring: evaluated by the two-cylinder shortcut, grouped with partial segments of the call
+        return magpy.magnet.CylinderSegment(dimension=(0.35, 0.8, 1.3, 0, 360), polarization=(-0.4, 0.3, 0.5), **kw)
+    if kind == "cyl2":
+        return magpy.magnet.Cylinder(dimension=(0.7, 1.6), polarization=(0.6, 0.1, -0.3), **kw)
     if kind == "circ":  # d=1.3
         r0 = 0.65
         return [(0.2, 0.1, 0.1), (0, 0, 0.5), (r0, 0, 0.4), (1.4, -0.6, 0.2), (0.03, 0, 0), (30.0, 10, 5), (0, 0, 0)]
